@@ -81,6 +81,7 @@ type Contract struct {
 	RecvNonNil    bool
 	CRLF          bool     // crlf-discipline: every raw append of non-constant bytes must be free of CR and LF
 	CRLFExempt    []string // source texts of append calls that are exempt (reported as not covered)
+	FreshExcept   map[string]string // field path -> reason: not part of this method's fresh-equivalent claim
 	AppendsRaw    bool     // appends-raw: copies unneutralised bytes after its first parameter
 	ReplayGo      []string // hand-written reproductions (test bodies) tried when an obligation of this function fails
 	Pure          bool // trusted-pure: parameter names are not bound
@@ -275,7 +276,7 @@ var clauseKeywords = map[string]bool{
 	"lemma": true, "requires": true, "ensures": true, "top-ensures": true, "modifies": true, "allocates": true,
 	"panics": true, "abstract": true, "nosafety": true, "loop": true, "invariant": true, "top-invariant": true,
 	"decreases": true, "assert": true, "alias": true, "props": true, "recvnonnil": true, "ghostset": true,
-	"end": true, "opaque": true, "witness": true, "trusted-pure": true, "crlf-discipline": true, "crlf-exempt": true, "replay-go": true, "appends-raw": true,
+	"end": true, "opaque": true, "witness": true, "trusted-pure": true, "crlf-discipline": true, "crlf-exempt": true, "replay-go": true, "appends-raw": true, "fresh-override": true, "fresh-except": true,
 }
 
 // parseContractFile reads the //@ lines of one file.
@@ -359,6 +360,8 @@ func (p *contractParser) line(t string, no int) error {
 		return nil
 	case "pure", "rec":
 		return p.specFunc(kw == "rec", rest, no)
+	case "fresh-override":
+		return p.freshOverride(rest)
 	case "trusted-pure":
 		// trusted-pure pkg | pkg.Type : calls have no effect on modelled state; results are arbitrary
 		parts := strings.SplitN(strings.TrimSpace(rest), ".", 2)
@@ -434,6 +437,15 @@ func (p *contractParser) line(t string, no int) error {
 		c.RecvNonNil = true
 	case "alias":
 		c.ResultAlias = rest
+	case "fresh-except":
+		i := strings.Index(rest, "::")
+		if i < 0 {
+			return fmt.Errorf("fresh-except needs: path :: reason")
+		}
+		if c.FreshExcept == nil {
+			c.FreshExcept = map[string]string{}
+		}
+		c.FreshExcept[strings.TrimSpace(rest[:i])] = strings.TrimSpace(rest[i+2:])
 	case "appends-raw":
 		c.AppendsRaw = true
 	case "replay-go":
